@@ -8,19 +8,14 @@ CLASSES = [
     ("illformed-utf8-not-consumed", r"illformed"),
 ]
 CLS = [
-    ("reverse-strategy-newline", r"\.\*co|\.\*ab|\.\*aa|\.\*\\\.tx|\(\?s\)\.\*ab"),
-    ("reverse-inner-plus-as-star", r"\.\+ab\.\+|\.\+ER\.\+"),
-    ("nonword-boundary-multibyte", r"^\\B "),
-    ("findall-ignores-longest", r"a\|ab.*FindAllIndex"),
-    ("posix-parse-flags", r"longest mode.*|POSIX"),
+    # matched against "<harness> <pattern> <api> <extra> <message>"
+    ("shared-simulator-data-race", r"data race"),
+    ("superlinear-search", r"^C05 "),
+    ("maxliterals-truncation", r"maxlits|maxlen|^C17 \\d:\\d"),
+    ("illformed-utf8-not-consumed", r"^C15 \. |\(tx\|lo\|md\)"),
+    ("nonword-boundary-multibyte", r"^C\d\d \\B "),
     ("casefold-non-ascii", r"\(\?i\)"),
     ("literalprefix-differs", r"LiteralPrefix"),
-    ("superlinear-search", r"C05"),
-    ("shared-simulator-data-race", r"data race"),
-    ("dfa-cache-stale-after-clear", r"dfa-cache"),
-    ("maxliterals-truncation", r"maxlits|foo\|bar"),
-    ("iterator-repeats-empty-match", r"AllIndex|AllString|All "),
-    ("empty-group-capture-in-findall", r"FindAllSubmatch"),
 ]
 def main():
     prop = sys.argv[1]
